@@ -12,7 +12,7 @@ LEVEL = 'exploration'
 RULE = ('a 3-level tree whose names give every pattern kind matching and non-matching entries at the root and deeper; ignore '
         'files = EVERY pattern list of length 1..2 (thorough 1..3) over {literal, *.ext, dir/, dir/*.ext, **/name, name?, '
         '/anchored, comment, blank, !negation of each} for git and docker, and over glob/regexp sections with syntax: switches '
-        'for hg; x root spelling {., relative, absolute, sub-directory of the repository with the ignore file in an ancestor} x '
+        'for hg; x root spelling {., relative, absolute, absolute through a symlinked ancestor, absolute with .. components, sub-directory of the repository with the ignore file in an ancestor, two roots in two different repositories}; the repository path contains regex metacharacters x '
         '{option, configuration default, no... override, off} x bfs/dfs x two roots; non-trivial = the list ignores some but not '
         'all entries')
 ASSUMPTIONS = ['git verdicts come from `git check-ignore --no-index` run in the generated repository; the .git directory itself is '
@@ -147,7 +147,7 @@ def git_ignored(repo, rels):
 
 # ------------------------------------------------------------------ space
 
-CONFIGS = [('dot', 'opt', ''), ('rel', 'opt', ''), ('abs', 'opt', 'dfs'), ('subdir', 'opt', ''), ('dot', 'config', ''),
+CONFIGS = [('absln', 'opt', ''), ('absdd', 'opt', 'dfs'), ('tworepo', 'opt', ''), ('tworepo2', 'opt', ''), ('dot', 'opt', ''), ('rel', 'opt', ''), ('abs', 'opt', 'dfs'), ('subdir', 'opt', ''), ('dot', 'config', ''),
            ('dot', 'config-no', ''), ('dot', 'off', ''), ('two', 'opt', ''), ('abs', 'opt', ''), ('subdir', 'opt', 'dfs')]
 
 
@@ -175,9 +175,17 @@ FILE = {'git': '.gitignore', 'docker': '.dockerignore', 'hg': '.hgignore'}
 def eval_group(env, group, tier):
     tool = group['tool']
     holder = env.newdir('c20')
-    repo = os.path.join(holder, 'repo')
+    repo = os.path.join(holder, 'repo')        # reached through a name that is full of regex metacharacters
+    os.mkdir(os.path.join(holder, 'c++ (1) [x]'))
+    os.mkdir(os.path.join(holder, 'c++ (1) [x]', 'w'))
+    repo = os.path.join(holder, 'c++ (1) [x]', 'w', 'repo')
     os.mkdir(repo)
+    os.symlink('c++ (1) [x]/w', os.path.join(holder, 'lnk'))
     core.materialise(repo, the_tree())
+    # a second, independent repository / context with its own ignore file
+    repo2 = os.path.join(holder, 'repo2')
+    os.mkdir(repo2)
+    core.materialise(repo2, {'a.o': F(1), 'keep.c': F(1), 'only2': F(1), 'sub': D({'b.o': F(1), 'only2': F(1)})})
     outs = []
     conf0 = open(env.config_path()).read()
     try:
@@ -186,6 +194,12 @@ def eval_group(env, group, tier):
                            env=dict(os.environ, HOME=env.home, GIT_CONFIG_NOSYSTEM='1'))
         if tool == 'hg':
             os.mkdir(os.path.join(repo, '.hg'))
+            os.mkdir(os.path.join(repo2, '.hg'))
+        if tool == 'git':
+            subprocess.run(['git', 'init', '-q', repo2], check=True, stdout=subprocess.DEVNULL, stderr=subprocess.DEVNULL,
+                           env=dict(os.environ, HOME=env.home, GIT_CONFIG_NOSYSTEM='1'))
+        with open(os.path.join(repo2, FILE[tool]), 'w') as f:
+            f.write(render(tool, [('glob', 'only2')]) if tool == 'hg' else '**/only2\n' if tool == 'docker' else 'only2\n')
         entries = sorted(p for p, n, l in core.walk_tree(the_tree()))
         for lst in group['lists']:
             with open(os.path.join(repo, FILE[tool]), 'w') as f:
@@ -207,9 +221,17 @@ def eval_group(env, group, tier):
                 if spelling == 'dot':
                     cwd, frm, scope = repo, '.' + rootopts, ''
                 elif spelling == 'rel':
-                    cwd, frm, scope = holder, 'repo' + rootopts, ''
+                    cwd, frm, scope = os.path.dirname(repo), 'repo' + rootopts, ''
                 elif spelling == 'abs':
-                    cwd, frm, scope = holder, repo + rootopts, ''
+                    cwd, frm, scope = holder, "'" + repo + "'" + rootopts, ''
+                elif spelling == 'absln':        # absolute, through a symlinked ancestor
+                    cwd, frm, scope = holder, "'" + os.path.join(holder, 'lnk', 'repo') + "'" + rootopts, ''
+                elif spelling == 'absdd':        # absolute, with .. components
+                    cwd, frm, scope = holder, "'" + os.path.join(repo, 'src', '..') + "'" + rootopts, ''
+                elif spelling in ('tworepo', 'tworepo2'):
+                    cwd, scope = holder, ''
+                    r1, r2 = "'" + repo + "'" + rootopts, "'" + repo2 + "'" + rootopts
+                    frm = (r1 + ', ' + r2) if spelling == 'tworepo' else (r2 + ', ' + r1)
                 elif spelling == 'subdir':
                     cwd, frm, scope = repo, 'src' + rootopts, 'src'
                 else:
@@ -224,14 +246,26 @@ def eval_group(env, group, tier):
                 scopes = scope.split('|') if scope else ['']
                 inscope = [e for e in allents if any((not s) or e.startswith(s + '/') for s in scopes)]
                 exp = sorted(e for e in inscope if not (active and e in ign))
+                if spelling.startswith('tworepo'):
+                    exp = sorted(exp + ['@2/' + x[3:] for x in []] + [])
                 got = []
+                extra2 = []
+                if spelling.startswith('tworepo'):
+                    e2 = ['a.o', 'keep.c', 'only2', 'sub', 'sub/b.o', 'sub/only2', FILE[tool]]
+                    extra2 = sorted('@2/' + e for e in e2 if not (active and e.endswith('only2')))
                 for p in o.rows():
-                    ap = os.path.normpath(os.path.join(cwd, p))
+                    ap = os.path.realpath(os.path.dirname(os.path.normpath(os.path.join(cwd, p)))) + '/' + os.path.basename(p)
+                    if ap.startswith(repo2 + '/'):
+                        r2_ = os.path.relpath(ap, repo2)
+                        if not (r2_ == '.git' or r2_.startswith('.git/') or r2_ == '.hg'):
+                            got.append('@2/' + r2_)
+                        continue
                     rel = os.path.relpath(ap, repo)
                     if rel == '.git' or rel.startswith('.git/') or rel == '.hg':
                         continue
                     got.append(rel)
                 got.sort()
+                exp = sorted(exp + extra2)
                 case = {'tool': tool, 'list': lst, 'cfg': list(cfg)}
                 nign = len([e for e in inscope if e in ign])
                 r = {'case': case, 'layer': '%s:%s:%s' % (tool, spelling, how), 'nt': active and 0 < nign < len(inscope), 'trans': len(inscope)}
